@@ -133,6 +133,13 @@ def _written_anywhere(prog: Program, last: str) -> bool:
                             cache.add(c.split(".")[-1])
                     elif isinstance(n, (ast.Attribute, ast.Name)) and isinstance(n.ctx, ast.Store):
                         cache.add(n.attr if isinstance(n, ast.Attribute) else n.id)
+                    # a table that is given another name ( t = self.table ) or handed to a call may be filled through that name
+                    if isinstance(n, ast.Assign) and isinstance(n.value, (ast.Attribute, ast.Name)) and attr_chain(n.value):
+                        cache.add(attr_chain(n.value).split(".")[-1])
+                    elif isinstance(n, ast.Call):
+                        for a_ in list(n.args) + [k.value for k in n.keywords]:
+                            if isinstance(a_, ast.Attribute) and attr_chain(a_) and not isinstance(n.func, ast.Name):
+                                cache.add(attr_chain(a_).split(".")[-1])
         prog._written_tables = cache
     return last in cache
 
